@@ -218,9 +218,26 @@ func (r *Reader) decodeG3ScanLine1D() {
 
 // decodeG3ScanLine2D decodes a Group 3 2D scanline (K > 0).
 func (r *Reader) decodeG3ScanLine2D() {
+	r.line = r.line[:0]
+
+	// Each EOL is followed by a tag bit.  No coded row starts with eleven
+	// zero bits, so an EOL which directly follows EOL+tag belongs to the
+	// return-to-control sequence (six times EOL+1) which ends the data.
+	numEOL := 0
 	for r.err == nil && r.peekBits(11) == 0 {
 		r.consumeBits(11)
 		r.waitForOne() // allow for fill bits
+		numEOL++
+		if !r.IgnoreEndOfBlock && numEOL >= 6 {
+			r.err = io.EOF
+			return
+		}
+		if r.peekBits(12)&0x7FF == 0 {
+			r.consumeBits(1) // the tag bit of an EOL inside the RTC
+		}
+	}
+	if r.err != nil {
+		return
 	}
 
 	tp := r.readBits(1)
